@@ -14,6 +14,7 @@
 import Fca.Model.BinTableOps
 import Fca.Spec.Table
 import Fca.Lemmas.BinTableOps
+import Fca.Gen.EquivOps
 namespace Fca.C05
 open Fca Fca.Spec.Table
 
@@ -332,5 +333,123 @@ example : HistValid exT [.query .transpose, .setData [[false, true]], .query .tr
   refine ⟨⟨trivial, ?_, trivial, ?_, trivial⟩, by decide⟩
   · intro r hr; simp at hr; subst hr; rfl
   · show (0 : Nat) < 1; decide
+
+end Fca.C05
+
+/-! ### the same statements for the definitions GENERATED from the Python source
+
+  `Fca.Gen.Lists.*` (`Fca/Gen/Generated.lean`) is what `harness/py2lean.py` makes of the current source of
+  `BinTableLists`; `Fca/Gen/Equiv.lean` proves each of them equal to the hand-written model, so the specification
+  value is reached by the source-derived definition itself (in `Except PyErr`: on in-range arguments no `IndexError`). -/
+namespace Fca.C05
+open Fca Fca.Spec.Table
+
+section
+variable (t : Table) (hwf : t.WF) (rows cols : Option (List Nat))
+  (hr : OptIdx.Valid rows t.height) (hc : OptIdx.Valid cols t.width)
+include hwf hr hc
+
+theorem gen_lists_all_spec : Gen.Lists.allAll t rows cols
+    = .ok (Spec.Table.all t (rows.getD (allRows t)) (cols.getD (allCols t))) := by
+  rw [Gen.Lists.allAll_eq_model t hwf rows cols hr hc, L.allAll_spec t hwf rows cols hr]
+
+theorem gen_lists_any_spec : Gen.Lists.anyAny t rows cols
+    = .ok (Spec.Table.any t (rows.getD (allRows t)) (cols.getD (allCols t))) := by
+  rw [Gen.Lists.anyAny_eq_model t hwf rows cols hr hc, L.anyAny_spec t hwf rows cols hr]
+
+theorem gen_lists_all_per_row_spec : Gen.Lists.allPerRow t rows cols
+    = .ok (Spec.Table.allPerRow t (rows.getD (allRows t)) (cols.getD (allCols t))) := by
+  rw [Gen.Lists.allPerRow_eq_model t hwf rows cols hr hc, L.allPerRow_spec t hwf rows cols hr]
+
+theorem gen_lists_any_per_row_spec : Gen.Lists.anyPerRow t rows cols
+    = .ok (Spec.Table.anyPerRow t (rows.getD (allRows t)) (cols.getD (allCols t))) := by
+  rw [Gen.Lists.anyPerRow_eq_model t hwf rows cols hr hc, L.anyPerRow_spec t hwf rows cols hr]
+
+theorem gen_lists_all_per_column_spec : Gen.Lists.allPerColumn t rows cols
+    = .ok (Spec.Table.allPerColumn t (rows.getD (allRows t)) (cols.getD (allCols t))) := by
+  rw [Gen.Lists.allPerColumn_eq_model t hwf rows cols hr hc, L.allPerColumn_spec t rows cols]
+
+theorem gen_lists_any_per_column_spec : Gen.Lists.anyPerColumn t rows cols
+    = .ok (Spec.Table.anyPerColumn t (rows.getD (allRows t)) (cols.getD (allCols t))) := by
+  rw [Gen.Lists.anyPerColumn_eq_model t hwf rows cols hr hc, L.anyPerColumn_spec t rows cols]
+
+theorem gen_lists_sum_per_row_spec : Gen.Lists.sumPerRow t rows cols
+    = .ok (Spec.Table.sumPerRow t (rows.getD (allRows t)) (cols.getD (allCols t))) := by
+  rw [Gen.Lists.sumPerRow_eq_model t hwf rows cols hr hc, L.sumPerRow_spec t hwf rows cols hr]
+
+theorem gen_lists_sum_per_column_spec : Gen.Lists.sumPerColumn t rows cols
+    = .ok (Spec.Table.sumPerColumn t (rows.getD (allRows t)) (cols.getD (allCols t))) := by
+  rw [Gen.Lists.sumPerColumn_eq_model t hwf rows cols hr hc, L.sumPerColumn_spec t rows cols]
+
+theorem gen_lists_sum_spec : Gen.Lists.sumAll t rows cols
+    = .ok (Spec.Table.sum t (rows.getD (allRows t)) (cols.getD (allCols t))) := by
+  rw [Gen.Lists.sumAll_eq_model t hwf rows cols hr hc]
+  simp only [L.sumAll, Spec.Table.sum, L.sumPerRow_spec t hwf rows cols hr]
+
+end
+
+/-- `all_i(axis, rows, cols)` / `any_i(...)` of the lists backend for `axis = 0, 1` (`AbstractBinTable.all_i / any_i`
+    specialised to the axis and to a `BinTableLists` receiver): the specification value of `Op.allI / Op.anyI` -/
+theorem gen_lists_all_i_spec (t : Table) (hwf : t.WF) (rows cols : Option (List Nat))
+    (hr : OptIdx.Valid rows t.height) (hc : OptIdx.Valid cols t.width) :
+    Res.nats <$> Gen.Lists.allI0 t rows cols = .ok (Spec.Table.run (.allI 0 rows cols) t) ∧
+    Res.nats <$> Gen.Lists.allI1 t rows cols = .ok (Spec.Table.run (.allI 1 rows cols) t) := by
+  rw [Gen.Lists.allI0_eq_model t hwf rows cols hr hc, Gen.Lists.allI1_eq_model t hwf rows cols hr hc]
+  have h0 := allIRes_spec t hwf .lists rows cols hr hc 0
+  have h1 := allIRes_spec t hwf .lists rows cols hr hc 1
+  simp [allIRes] at h0 h1
+  exact ⟨congrArg Except.ok h0, congrArg Except.ok h1⟩
+
+theorem gen_lists_any_i_spec (t : Table) (hwf : t.WF) (rows cols : Option (List Nat))
+    (hr : OptIdx.Valid rows t.height) (hc : OptIdx.Valid cols t.width) :
+    Res.nats <$> Gen.Lists.anyI0 t rows cols = .ok (Spec.Table.run (.anyI 0 rows cols) t) ∧
+    Res.nats <$> Gen.Lists.anyI1 t rows cols = .ok (Spec.Table.run (.anyI 1 rows cols) t) := by
+  rw [Gen.Lists.anyI0_eq_model t hwf rows cols hr hc, Gen.Lists.anyI1_eq_model t hwf rows cols hr hc]
+  have h0 := anyIRes_spec t hwf .lists rows cols hr hc 0
+  have h1 := anyIRes_spec t hwf .lists rows cols hr hc 1
+  simp [anyIRes] at h0 h1
+  exact ⟨congrArg Except.ok h0, congrArg Except.ok h1⟩
+
+/-- `_get_row(i, cols)` with `cols` an index list or `None` (slices are outside the translated subset) -/
+theorem gen_lists_get_row_spec (t : Table) (hwf : t.WF) (i : Nat) (cols : Option (List Nat))
+    (hi : i < t.height) (hc : OptIdx.Valid cols t.width) :
+    Gen.Lists.getRow t i cols = .ok (rowSel t i (cols.getD (allCols t))) := by
+  rw [Gen.Lists.getRow_eq_model t hwf i cols hi hc]
+  cases cols with
+  | none =>
+    have h := L.getitem_eq t hwf (.one (.int i)) hi
+    simp only [L.getitem, getitemDispatch, Spec.Table.getitem, Res.bools.injEq] at h
+    rw [Option.map_none, h]; rfl
+  | some cs =>
+    have h := L.getitem_eq t hwf (.two (.int i) (.sel (.idx cs))) ⟨hi, hc cs rfl⟩
+    simp only [L.getitem, getitemDispatch, Spec.Table.getitem, Res.bools.injEq] at h
+    rw [Option.map_some, h]; rfl
+
+/-- `_get_column(rows, j)` with `rows` an index list -/
+theorem gen_lists_get_column_spec (t : Table) (hwf : t.WF) (rs : List Nat) (j : Nat)
+    (hrs : ∀ i ∈ rs, i < t.height) (hj : j < t.width) :
+    Gen.Lists.getColumn t rs j = .ok (colSel t rs j) := by
+  rw [Gen.Lists.getColumn_eq_model t hwf rs j hrs hj]
+  have h := L.getitem_eq t hwf (.two (.sel (.idx rs)) (.int j)) ⟨hrs, hj⟩
+  simp only [L.getitem, getitemDispatch, Spec.Table.getitem, Res.bools.injEq] at h
+  rw [h]; rfl
+
+/-- `&`, with its shape assertion -/
+theorem gen_lists_and_spec (t : Table) (hwf : t.WF) (o : Table) (ho : o.WF) :
+    exceptRes (Gen.Lists.band t o) = Spec.Table.run (.and o) t := by
+  rw [Gen.Lists.band_eq_model]; exact and_spec t hwf .lists o ho
+
+/-- `|`, with its shape assertion -/
+theorem gen_lists_or_spec (t : Table) (hwf : t.WF) (o : Table) (ho : o.WF) :
+    exceptRes (Gen.Lists.bor t o) = Spec.Table.run (.or o) t := by
+  rw [Gen.Lists.bor_eq_model]; exact or_spec t hwf .lists o ho
+
+theorem gen_lists_invert_spec (t : Table) (hwf : t.WF) :
+    Gen.Lists.invert t = .ok (Spec.Table.invert t) := by
+  rw [Gen.Lists.invert_eq_model]; exact congrArg Except.ok (invert_spec t hwf .lists)
+
+/-- the hypotheses are met, and the generated definition computes: a concrete run -/
+example : Gen.Lists.allPerColumn ⟨[[true, false, true], [false, true, true]], 3⟩ (some [1, 0]) (some [2, 0])
+    = .ok [true, false] := by rfl
 
 end Fca.C05
